@@ -1249,7 +1249,8 @@ ENCODER_API = {"encode_api_versions_request": "api_versions", "encode_metadata_r
                "encode_sync_group_request": "sync_group", "encode_offset_request": "list_offsets",
                "encode_offset_fetch_request": "offset_fetch", "encode_offset_commit_request": "offset_commit",
                "encode_fetch_request": "fetch", "encode_produce_request": "produce",
-               "_encode_message_set": "produce", "_encode_message": "produce"}
+               "_encode_message_set": "produce", "_encode_message": "produce", "create_message": "produce",
+               "create_gzip_message": "produce", "create_message_set": "produce"}
 
 
 def translator_tie(ck):
